@@ -57,8 +57,8 @@ def main():
         if not os.path.exists(mp):
             continue
         meta = json.load(open(mp))
-        if not meta.get("verified"):
-            continue
+        if not meta.get("verified") or meta.get("status"):
+            continue  # obsolete / neutralised by a later fix: commit (see meta.json)
         if a.ids and sid not in a.ids.split(","):
             continue
         props = have if a.all_checks else [meta["property"]]
